@@ -28,6 +28,14 @@ theorem c12_gen_wiring :
     Gen.wiring = [ErrMap.wiring, ErrMap.wiring, ErrMap.wiring] ∧
       Gen.contextsAttachChallenge = ErrMap.contextsAttachChallenge := by decide
 
+/-- round 5: `Endpoint.CreateRequest` and `Endpoint.SendRequest`, probed with an authentication strategy that fails
+with an error of every kind and with a foreign error, put exactly one `ErrInternal` in front of the strategy's error
+and keep that error in the chain — which is what `authenticateRequest` does -/
+theorem c12_gen_endpoint :
+    Gen.endpointLayer = [([Kind.internal], true), ([Kind.internal], true)] ∧
+      ∀ s : Strategy, authenticateRequest s = s.apply.map (fun e => [Kind.internal].foldr wrapKind e) :=
+  ⟨by decide, fun _ => rfl⟩
+
 /-! ## chains: `errors.Is` / `errors.As` see exactly the failures a value consists of -/
 
 /-- `errors.Is(e, sentinel)` holds iff the sentinel is one of the leaves of `e`, however deeply nested or wrapped -/
@@ -339,6 +347,159 @@ example : (Cfg.mk true { ClassMap.const 0 with comm := 503 }).valid = true ∧
     (Err.chain [.kind .communication, .wrap (.ctxDone .canceled)]).essential ≠ [] ∧
     ∀ l ∈ (Err.chain [.kind .communication, .wrap (.ctxDone .canceled)]).essential, l.action = .respond .comm := by
   decide
+
+/-! ## wrapping by the endpoint layer, token endpoints, informational responses (round 5) -/
+
+/-- `Action.rank` is the position in the precedence order the translators implement (`c12_precedence`); "anything
+else" comes after every class of the list -/
+theorem c12_rank_is_priority (a : Action) : a.rank = priority.idxOf a := by
+  rcases action_cases a with rfl | rfl | rfl | rfl | rfl | rfl | rfl <;> decide
+
+/-- **Putting an error of kind `k` in front of a failure** (`errorchain.NewWithMessage(heimdall.Err<k>, "…").
+CausedBy(cause)`, what every layer of heimdall does when it hands a failure upwards) gives the class which comes
+first in the precedence order: the wrapper's own class if it precedes (or equals) the class of the cause, else the
+class of the cause — for every cause of any shape. -/
+theorem c12_wrapping_by_kind (tr : Transport) (k : Kind) (cause : Err) :
+    classify tr.translator.cases tr.translator.dflt (wrapKind k cause) =
+      if k.action.rank ≤ cause.action.rank then k.action else cause.action := by
+  rw [c12_precedence]; exact action_wrapKind k cause
+
+/-- the wrapper's kind takes precedence over a communication failure exactly for authentication and authorization;
+an argument, no-rule, configuration or internal error in front of it leaves the class alone -/
+example : [Kind.authentication, .authorization, .communication, .timeout, .argument, .noRule, .configuration,
+      .internal].map (fun k => (wrapKind k (.chain [.kind .communication, .wrap .foreign])).action) =
+    [.respond .authn, .respond .authz, .respond .comm, .respond .comm, .respond .comm, .respond .comm,
+      .respond .comm, .respond .comm] := by decide
+
+/-- **The endpoint layer keeps the class of a failure.** A failure of an endpoint's authentication strategy leaves
+the mechanism wrapped by `Endpoint.CreateRequest` (`ErrInternal "failed to authenticate request"`) and by the
+mechanism (`ErrInternal "failed creating request"`). Both wrappers are of the internal kind, the last one in the
+precedence order, so for EVERY cause — of any depth, any mix of kinds, with redirects, foreign and `context` errors —
+the class is the class of the cause, and every translator gives the very same answer (status, headers, body, gRPC
+code) as for the bare cause; no hypothesis is needed. -/
+theorem c12_endpoint_wrapping_keeps_class (tr : Transport) (cfg : Cfg) (acc : Accept) (cause : Err)
+    (ch : List String) :
+    classify tr.translator.cases tr.translator.dflt (endpointWrap cause) =
+        classify tr.translator.cases tr.translator.dflt cause ∧
+      classify tr.translator.cases tr.translator.dflt (wrapKind .internal cause) =
+        classify tr.translator.cases tr.translator.dflt cause ∧
+      tr.translator.respond cfg acc ⟨endpointWrap cause, ch⟩ = tr.translator.respond cfg acc ⟨cause, ch⟩ := by
+  refine ⟨?_, ?_, respond_congr tr cfg acc ch (action_endpointWrap cause) (asRedirect_endpointWrap cause)⟩
+  · rw [c12_precedence, c12_precedence, action_endpointWrap]
+  · rw [c12_precedence, c12_precedence, action_wrapInternal]
+
+/-- the token endpoint of the remote authorizer's endpoint is unreachable: 502, as for the bare communication
+failure; if the wrapper drops its cause (`ErrInternal "failed to authenticate request"` without `CausedBy`) the
+class is lost: 500 -/
+example :
+    ErrMap.http.respond ⟨false, ClassMap.const 0⟩ .absent
+        (plain (endpointWrap (.chain [.kind .communication, .wrap .foreign]))) = .resp ⟨502, [], none, none⟩ ∧
+    ErrMap.grpc.respond ⟨false, { ClassMap.const 0 with comm := 504 }⟩ .absent
+        (plain (endpointWrap (.chain [.kind .timeout, .wrap (.ctxDone .deadlineExceeded)]))) =
+      .resp ⟨504, [], none, some 4⟩ ∧
+    ErrMap.http.respond ⟨false, ClassMap.const 0⟩ .absent
+        (plain (wrapKind .internal (.chain [.kind .internal]))) = .resp ⟨500, [], none, none⟩ := by decide
+
+/-- **Failures of the token endpoint of an `oauth2_client_credentials` strategy have the class the property's table
+gives them**, at the mechanism (`createRequest`) and at `Endpoint.SendRequest` (`authenticateRequest`): unreachable,
+timed out, a status other than 200 / 400, a 400 with or without an OAuth2 error document, a 200 carrying an error
+document → communication (502); a 200 that is not JSON → internal (500); an issued token → no failure. The cause
+reported by net/http may be any value without a classified failure inside. -/
+theorem c12_token_endpoint_fault_class (t : TokenOutcome) (hc : t.causeUnclassified = true) :
+    (createRequest (.clientCredentials t)).map Err.action = t.expected ∧
+      (authenticateRequest (.clientCredentials t)).map Err.action = t.expected := by
+  have key : ∀ e, t.err = some e → e.action = (t.expected).getD (.respond .internal) → 
+      (createRequest (.clientCredentials t)).map Err.action = some ((t.expected).getD (.respond .internal)) ∧
+      (authenticateRequest (.clientCredentials t)).map Err.action = some ((t.expected).getD (.respond .internal)) := by
+    intro e he ha
+    simp only [createRequest, authenticateRequest, Strategy.apply, he, Option.map_some, action_endpointWrap,
+      action_wrapInternal, ha, and_self]
+  have hk : ∀ (k : Kind) (c : Err), c.unclassified = true → k.action = .respond .comm →
+      (Err.chain [.kind k, c]).action = .respond .comm := by
+    intro k c hu hka
+    have := action_wrapKind k c
+    rw [action_of_unclassified hu, hka] at this
+    exact this
+  cases t with
+  | issued => exact ⟨rfl, rfl⟩
+  | sendFailed c => exact key _ rfl (hk .communication c hc rfl)
+  | sendTimedOut c => exact key _ rfl (hk .timeout c hc rfl)
+  | unexpectedStatus => exact key _ rfl (by decide)
+  | badRequest d => cases d <;> exact key _ rfl (by decide)
+  | okUnparsable => exact key _ rfl (by decide)
+  | okErrorDocument => exact key _ rfl (by decide)
+
+example : (TokenOutcome.sendFailed (.wrap (.wrap (.ctxDone .canceled)))).causeUnclassified = true ∧
+    (TokenOutcome.sendTimedOut (.wrap (.ctxDone .deadlineExceeded))).causeUnclassified = true ∧
+    (createRequest (.clientCredentials (.sendFailed (.wrap .foreign)))) =
+      some (.chain [.kind .internal, .chain [.kind .internal, .chain [.kind .communication, .wrap .foreign]]]) :=
+  ⟨by decide, by decide, rfl⟩
+
+/-- the other strategies: `basic_auth` and `api_key` cannot fail at request time; a signature that cannot be made
+(a component to be signed is not on the request) is an internal error -/
+example : createRequest .none = none ∧ createRequest .basicAuth = none ∧ createRequest .apiKey = none ∧
+    createRequest (.signatures false) = none ∧
+    (createRequest (.signatures true)).map Err.action = some (.respond .internal) := by decide
+
+/-- **The final status survives informational responses.** For every log level (at `trace` the dump middleware hooks
+`WriteHeader`), any number of informational statuses written first and a final status `code`: the writer ends with
+exactly `code` — never with the implicit `200 OK` — the client got exactly those informational responses, and
+whatever is written afterwards changes nothing. -/
+theorem c12_final_status_survives_informational (lvl : LogLevel) (infos : List Int) (code : Int) (more : List Int)
+    (hi : ∀ i ∈ infos, isInformational i = true) (hc : isInformational code = false) :
+    (writeHeaders lvl (false, Writer.fresh) (infos ++ code :: more)).2 = ⟨infos, some code⟩ ∧
+      (writeHeaders lvl (false, Writer.fresh) (infos ++ code :: more)).2.finish = code := by
+  have h : (writeHeaders lvl (false, Writer.fresh) (infos ++ code :: more)).2 = ⟨infos, some code⟩ := by
+    rw [writeHeaders_snd, List.foldl_append, foldl_informational _ rfl infos hi, List.foldl_cons,
+      writeHeader_final _ rfl code hc]
+    exact foldl_after_final _ code rfl more
+  exact ⟨h, by rw [h]; rfl⟩
+
+example : (∀ i ∈ [100, 102, 103, 103], isInformational i = true) ∧ isInformational 502 = false ∧
+    isInformational 101 = false := by decide
+
+/-- **Informational responses of the upstream do not change the answer of the proxy.** Whatever informational
+responses (`100 Continue`, `102 Processing`, `103 Early Hints` …) the upstream sent before it died, at every log
+level: the client gets exactly those and then the answer to the communication failure — the same answer as without
+them, with the status configured for communication errors, else 502, and no 2xx unless one is configured. An
+upstream which goes on to answer is forwarded. Hypotheses: the configured statuses are HTTP status codes and the
+one for communication errors is not itself informational. -/
+theorem c12_informational_responses_do_not_change_status (lvl : LogLevel) (cfg : Cfg) (acc : Accept)
+    (infos : List Int) (hi : ∀ i ∈ infos, isInformational i = true) (hv : cfg.valid = true)
+    (hc : isInformational (cfg.status .comm) = false) :
+    proxyForward lvl cfg acc infos .dies = (infos, ErrMap.http.respond cfg acc (plain upstreamFailure)) ∧
+      proxyForward lvl cfg acc infos .answers = (infos, .allowed) ∧
+      ∃ r, ErrMap.http.respond cfg acc (plain upstreamFailure) = .resp r ∧ r.status = cfg.status .comm ∧
+        (cfg.noSuccess = true → isSuccess r.status = false) := by
+  obtain ⟨r, hr, hs⟩ := c12_status .http cfg acc (plain upstreamFailure) .comm hv (by decide)
+  have hs' : r.status = cfg.status .comm := hs
+  have hr' : ErrMap.http.respond cfg acc (plain upstreamFailure) = .resp r := hr
+  have hinf : (writeHeaders lvl (false, Writer.fresh) infos).2 = ⟨infos, none⟩ := by
+    rw [writeHeaders_snd, foldl_informational _ rfl infos hi]; simp [Writer.fresh]
+  refine ⟨?_, ?_, r, hr', hs', fun hn => ?_⟩
+  · have hfin : (writeHeaders lvl (writeHeaders lvl (false, Writer.fresh) infos) [r.status]).2 =
+        ⟨infos, some r.status⟩ := by
+      rw [writeHeaders_snd, hinf, List.foldl_cons, List.foldl_nil,
+        writeHeader_final _ rfl r.status (by rw [hs']; exact hc)]
+    simp only [proxyForward, hr', hfin, Writer.finish, Option.getD_some]
+  · simp only [proxyForward, hinf]
+  · rcases respond_inv hr with ⟨_, _, ha, _⟩ | ⟨c', _, rfl⟩
+    · exact absurd ha (by decide)
+    · exact tr_code_noSuccess .http hn c'
+
+example : (∀ i ∈ [103, 103], isInformational i = true) ∧
+    (Cfg.mk true { ClassMap.const 0 with comm := 503 }).valid = true ∧
+    isInformational ((Cfg.mk true { ClassMap.const 0 with comm := 503 }).status .comm) = false ∧
+    isInformational ((Cfg.mk false (ClassMap.const 0)).status .comm) = false := by decide
+
+/-- the demonstration: log level `trace`, `103 Early Hints`, then the upstream closes the connection — 502 -/
+example : proxyForward .trace ⟨false, ClassMap.const 0⟩ .absent [103] .dies =
+    ([103], .resp ⟨502, [], none, none⟩) := by decide
+
+/-- the last hypothesis is needed: an operator who configures an informational status for communication errors
+turns the failure into net/http's implicit `200 OK` -/
+example : proxyForward .info ⟨false, { ClassMap.const 0 with comm := 103 }⟩ .absent [] .dies =
+    ([103], .resp ⟨200, [], none, none⟩) := by decide
 
 /-! ## error details -/
 
